@@ -989,16 +989,24 @@ def search_C17(n_random, seed):
     thorough = n_random > 40
     scs = multi_scenarios(rnd, 2 if not thorough else 10, earn=True, intra=True)
     picks = [scs[0], scs[7]] + scs[9:]
+    # lots bought inside the hour that a DST zone repeats (05:00Z-07:00Z on 2020-11-01 for US Eastern): results must not depend on the machine's TZ
+    picks.append({"assets": {"B1": [{"tab": "IN", "ts": "2020-10-30T10:00:00+00:00", "ex": "Coinbase", "ho": "Bob", "type": "buy", "spot": "90", "amount": "1"},
+                                    {"tab": "IN", "ts": "2020-11-01T05:30:00+00:00", "ex": "Coinbase", "ho": "Bob", "type": "buy", "spot": "130", "amount": "1"},
+                                    {"tab": "IN", "ts": "2020-11-01T06:10:00+00:00", "ex": "Coinbase", "ho": "Bob", "type": "buy", "spot": "100", "amount": "1"},
+                                    {"tab": "OUT", "ts": "2020-11-01T06:05:00+00:00", "ex": "Coinbase", "ho": "Bob", "type": "sell", "spot": "200", "amount": "0.5", "fee": "0"},
+                                    {"tab": "OUT", "ts": "2020-11-02T06:20:00+00:00", "ex": "Coinbase", "ho": "Bob", "type": "sell", "spot": "210", "amount": "0.5", "fee": "0"}]},
+                  "method": "hifo"})
     root = tempfile.mkdtemp(prefix="rp2cli_")
     fails, evals = [], 0
 
     def one(job):
         k, sc = job
         res = []
-        m = rnd.choice(METHODS)
+        m = sc.get("method") or rnd.choice(METHODS)
         run = {"country": "us", "method": m}
         outs = []
-        # (a) hash seeds, dirty output directory
+        # (a) hash seeds, dirty output directory, time zone of the machine
+        tzs = ["UTC", "UTC", "EST5EDT,M3.2.0,M11.1.0"]
         for j, hs in enumerate(["0", "1", "4242"]):
             wd = os.path.join(root, f"s{k}_{j}")
             sc2 = json.loads(json.dumps(sc))
@@ -1008,7 +1016,7 @@ def search_C17(n_random, seed):
                     f.write("stale file from an earlier run")
                 with open(os.path.join(wd, "out", "unrelated.txt"), "w") as f:
                     f.write("x")
-            r = do_run(sc2, run, wd, env_extra={"PYTHONHASHSEED": hs}, keep_out=True)
+            r = do_run(sc2, run, wd, env_extra={"PYTHONHASHSEED": hs, "TZ": tzs[j]}, keep_out=True)
             if r["rc"] != 0:
                 res.append(f"run with PYTHONHASHSEED={hs} exited {r['rc']}: {r['out'][-200:]}")
                 continue
@@ -1018,7 +1026,7 @@ def search_C17(n_random, seed):
             for n in outs[0]:
                 if outs[j].get(n) != outs[0][n]:
                     diff = [s for s in outs[0][n] if outs[j].get(n, {}).get(s) != outs[0][n][s]]
-                    res.append(f"{n} differs between hash seeds / output directory states (sheets {diff[:3]})")
+                    res.append(f"{n} differs between hash seeds / output directory states / TZ settings (sheets {diff[:3]})")
         # (b) row / table permutation with distinct timestamps, (c) asset subsets: compared on the computed fractions through the public API
         wd = os.path.join(root, f"p{k}")
         os.makedirs(wd, exist_ok=True)
